@@ -380,6 +380,9 @@ func (e *Environment) SetNoChecks(name string, val Object, create bool) Object {
 	if ref, ok := e.makeRef(name); ok {
 		log.Debugf("SetNoChecks(%s) created ref %s in %d", name, ref.Name, ref.RefEnv.depth)
 		ref.RefEnv.store[ref.Name] = Value(val) // kinda neat to make aliases but it can create loops, so not for now.
+		if ref.RefEnv.depth == 0 {
+			ref.RefEnv.numSet++ // a global changed: NumSet() is what tells auto save there is something to save.
+		}
 		return val
 	}
 	log.Debugf("SetNoChecks(%s) brand new to %d and above", name, e.depth)
